@@ -10,6 +10,8 @@ package main
 //	  roles  []string set index                           members link collection B.members <-> A.groups
 //	  owner  *string  nullable fk index -> B.things
 //	  dep    *string  nullable fk constraint -> B, cascade delete (deleting the owner deletes its dependants)
+//	  chief  *string  nullable fk constraint -> A itself, RESTRICT (CascadeNone): an entity that some chief field names - its own
+//	                  included - cannot be deleted; registered before boss, so the check runs before any cascade
 //	  boss   *string  nullable fk constraint -> A itself, cascade delete (deleting an entity deletes its transitive
 //	                  referrers; self references and longer cycles terminate since fix bda5470); registered FIRST, so the
 //	                  cascade runs before the entity's own index entries are removed
@@ -36,7 +38,7 @@ package main
 //	c2:<id>:<name>:<alias>:<roles>:<owner>:<dep>:<groups>:<colour>[:<boss>]        A2.Create (extended child store)
 //	u2:<id>:<name>:<alias>:<roles>:<owner>:<dep>:<groups>:<colour>:<chk>[:<boss>]  A2.Update, <chk> also knows c = colour
 //	d2:<id>                                                                        A2.DeleteById (delegates to the parent)
-//	(the trailing <boss> is optional: absent = nil)
+//	(the trailing <boss> is optional: absent = nil; it may be followed by :<chief>, optional as well; checker letter h = chief)
 //	ri:<a>:<b>  rd:<a>:<b>  rs:<a>:<b>:<n>                      Increment / Decrement / SetLinkCount on A.rcB
 //	pa:<id>:<keys>  pr:<id>:<keys>  ps:<id>:<keys>              AddLinks / RemoveLinks / SetLinks on A.peers
 //	ms:<id>:<keys>                                              SetLinks on A.mentors
@@ -72,6 +74,7 @@ type c06Thing struct {
 	Owner  *string
 	Dep    *string
 	Boss   *string
+	Chief  *string
 	Groups []string
 }
 
@@ -114,6 +117,7 @@ func (s c06ThingStrategy) FillEntity(e *c06Thing, b *boltz.TypedBucket) {
 	e.Owner = b.GetString("owner")
 	e.Dep = b.GetString("dep")
 	e.Boss = b.GetString("boss")
+	e.Chief = b.GetString("chief")
 	e.Groups = b.GetStringList("groups")
 }
 func (s c06ThingStrategy) PersistEntity(e *c06Thing, ctx *boltz.PersistContext) {
@@ -124,6 +128,7 @@ func (s c06ThingStrategy) PersistEntity(e *c06Thing, ctx *boltz.PersistContext) 
 	ctx.SetStringP("owner", e.Owner)
 	ctx.SetStringP("dep", e.Dep)
 	ctx.SetStringP("boss", e.Boss)
+	ctx.SetStringP("chief", e.Chief)
 	ctx.SetLinkedIds("groups", append([]string{}, e.Groups...))
 }
 
@@ -253,7 +258,10 @@ func c06Wire(sch *c06Schema) *c06Stores {
 	symMembers := s.owners.AddFkSetSymbol("members", s.things)
 
 	s.things.AddIdSymbol("id", ast.NodeTypeString)
-	// the self reference comes first: fk constraint, then (same store) its cascading delete constraint
+	// the restricting self reference comes first of all: its check refuses a delete before anything is cascaded
+	symChief := s.things.AddFkSymbol("chief", s.things)
+	s.things.AddFkConstraint(symChief, true, boltz.CascadeNone)
+	// the cascading self reference: fk constraint, then (same store) its cascading delete constraint
 	symBoss := s.things.AddFkSymbol("boss", s.things)
 	s.things.AddFkConstraint(symBoss, true, boltz.CascadeDelete)
 	symName := s.things.AddSymbolWithKey(sch.name.sym, ast.NodeTypeString, sch.name.key)
@@ -306,6 +314,7 @@ type c06Op struct {
 	owner  *string
 	dep    *string
 	boss   *string
+	chief  *string
 	groups []string
 	code   string
 	pals   []string
@@ -351,6 +360,9 @@ func c06ParseOp(s string) c06Op {
 		if len(f) > nf {
 			op.boss = csParseOpt(f[nf])
 		}
+		if len(f) > nf+1 {
+			op.chief = csParseOpt(f[nf+1])
+		}
 	case "cb":
 		op.label = csParseOpt(f[2])
 	case "ub":
@@ -373,8 +385,11 @@ func c06FmtOp(op c06Op) string {
 			csOpt(op.owner), csOpt(op.dep), csList(op.groups))
 	}
 	boss := ""
-	if op.boss != nil {
+	if op.boss != nil || op.chief != nil {
 		boss = ":" + csOpt(op.boss)
+	}
+	if op.chief != nil {
+		boss += ":" + csOpt(op.chief)
 	}
 	switch op.kind {
 	case "ca":
@@ -416,13 +431,13 @@ func c06Checker(chk string, names map[byte]string) boltz.FieldChecker {
 
 func (s *c06Stores) aFields() map[byte]string {
 	return map[byte]string{'n': s.sch.name.chk, 'a': s.sch.alias.chk, 'r': s.sch.roles.chk, 'o': "owner", 'd': "dep", 'g': "groups",
-		'b': "boss", 'c': s.sch.colour.chk}
+		'b': "boss", 'c': s.sch.colour.chk, 'h': "chief"}
 }
 var c06BFields = map[byte]string{'l': "label"}
 
 func (s *c06Stores) thing(op c06Op) *c06Thing {
 	return &c06Thing{Id: op.id, Name: op.name, Alias: op.alias, Roles: append([]string{}, op.roles...), Owner: op.owner,
-		Dep: op.dep, Boss: op.boss, Groups: append([]string{}, op.groups...)}
+		Dep: op.dep, Boss: op.boss, Chief: op.chief, Groups: append([]string{}, op.groups...)}
 }
 
 func (s *c06Stores) apply(ctx boltz.MutateContext, op c06Op) error {
@@ -640,6 +655,9 @@ func (sh *c06Shadow) apply(op c06Op) bool {
 		if e.boss != nil && *e.boss != "" && *e.boss != e.id && sh.a[*e.boss] == nil {
 			return false
 		}
+		if e.chief != nil && *e.chief != "" && *e.chief != e.id && sh.a[*e.chief] == nil {
+			return false
+		}
 		for _, g := range e.groups {
 			if !sh.b[g] {
 				return false
@@ -711,6 +729,9 @@ func (sh *c06Shadow) apply(op c06Op) bool {
 		if all || strings.Contains(op.chk, "b") {
 			e.boss = op.boss
 		}
+		if all || strings.Contains(op.chk, "h") {
+			e.chief = op.chief
+		}
 		if !okRefs(&e) {
 			return false
 		}
@@ -720,8 +741,7 @@ func (sh *c06Shadow) apply(op c06Op) bool {
 		if sh.a[op.id] == nil {
 			return false
 		}
-		sh.deleteA(op.id)
-		return true
+		return sh.deleteA(op.id)
 	case "cb":
 		if op.id == "" || sh.b[op.id] {
 			return false
@@ -768,8 +788,8 @@ func (sh *c06Shadow) apply(op c06Op) bool {
 	return false
 }
 
-// deleteA: the entity and, transitively, everything whose boss is deleted
-func (sh *c06Shadow) deleteA(id string) {
+// deleteA: the entity and, transitively, everything whose boss is deleted; refused (roughly) when a chief field names any of them
+func (sh *c06Shadow) deleteA(id string) bool {
 	gone := map[string]bool{id: true}
 	for changed := true; changed; {
 		changed = false
@@ -780,9 +800,15 @@ func (sh *c06Shadow) deleteA(id string) {
 			}
 		}
 	}
+	for _, e := range sh.a {
+		if e.chief != nil && gone[*e.chief] {
+			return false
+		}
+	}
 	for aid := range gone {
 		delete(sh.a, aid)
 	}
+	return true
 }
 
 func c06PickId(r *rng, ids []string, live func(string) bool, wantLive bool) string {
@@ -865,6 +891,19 @@ func (sh *c06Shadow) genAVals(r *rng, op *c06Op, aIds []string) {
 		e := ""
 		op.boss = &e
 	}
+	// chief (restrict): a quarter of the written entities name one - another entity (sorting before or after), or themselves
+	op.chief = nil
+	switch k := r.intn(16); {
+	case k < 3 && len(others) > 0:
+		v := pick(r, others)
+		if r.chance(1, 30) {
+			v = pick(r, aIds)
+		}
+		op.chief = &v
+	case k == 3:
+		v := op.id
+		op.chief = &v
+	}
 	op.groups = nil
 	for i, n := 0, r.intn(3); i < n; i++ {
 		op.groups = append(op.groups, bpick())
@@ -877,9 +916,9 @@ func (sh *c06Shadow) genAVals(r *rng, op *c06Op, aIds []string) {
 	}
 }
 
-var c06AChks = []string{"*", "*", "*", "n", "a", "r", "o", "d", "g", "b", "b", "no", "rg", "od", "dg", "nb", "nar", "narodgb", "0", "ao"}
+var c06AChks = []string{"*", "*", "*", "n", "a", "r", "o", "d", "g", "b", "b", "no", "rg", "od", "dg", "nb", "nar", "narodgbh", "0", "ao", "h", "h", "bh"}
 
-var c06A2Chks = []string{"*", "*", "c", "c", "nc", "n", "rg", "ob", "narodgbc", "0", "bc", "ac"}
+var c06A2Chks = []string{"*", "*", "c", "c", "nc", "n", "rg", "ob", "narodgbch", "0", "bc", "ac", "h"}
 
 // c06GenColour: mostly a free colour, sometimes one that is taken, sometimes the empty string (not indexed)
 func c06GenColour(r *rng, sh *c06Shadow, id string) string {
